@@ -111,6 +111,8 @@ Inductive gval :=
 | VHashQ (b : N) | VHexQ (b : N) | VTxsQ (b : N) | VEncQ (b : N)   (* batch.Hash(), its hex, batch.Transactions, proto.Marshal of it *)
 | VKeyQ (k : N)                                 (* batchKey(seq, hash): identified with its sequence number *)
 | VQDB (put_ok : bool)
+| VChainQ (id : N)                              (* a chain id (request Id / Sequencer.Id) *)
+| VErrTag (name : string)                       (* a sentinel error with its identity (errors.Is) *)
 | VKey (k : Includer.mkey) | VKeyPrefix
 | VUnit.
 
@@ -326,6 +328,7 @@ Definition builtin (globals : env) (f : string) (args : list gval) : res gval :=
     | [VTxs (Some l)] => RRet (VN (N.of_nat (length l)))
     | [VTxs None] => RRet (VN 0)
     | [VList l] => RRet (VN (llen l))
+    | [VTxsQ _] => RRet (VN 1)                 (* a VTxsQ is a NON-EMPTY transaction list, by id; its length only matters as "not 0" *)
     | _ => RFail "len"
     end
   else if f =? "bytes.Equal" then
@@ -334,6 +337,7 @@ Definition builtin (globals : env) (f : string) (args : list gval) : res gval :=
     | [VCommit a; VCommit b] => RRet (VBool (commitment_eqb a b))
     | [VRoot a; VRoot b] => RRet (VBool (a =? b)%N)
     | [VIdD a; VIdD b] => RRet (VBool (a =? b)%N)
+    | [VChainQ a; VChainQ b] => RRet (VBool (a =? b)%N)
     | _ => RFail "bytes.Equal"
     end
   else if f =? "KeyAddress" then
@@ -348,6 +352,12 @@ Definition builtin (globals : env) (f : string) (args : list gval) : res gval :=
     end
   else if (f =? "fmt.Errorf") || (f =? "errors.New") then RRet (VErr true)
   else if f =? "context.Background" then RRet VUnit
+  else if f =? "time.Now" then RRet VUnit
+  else if f =? "fmt.Errorf%w" then
+    match args with
+    | [VErrTag t] => RRet (VErrTag t)          (* wrapping keeps the identity errors.Is looks for *)
+    | _ => RRet (VErr true)
+    end
   else if f =? "fmt.Sprintf" then
     match args with
     | [VStr fm; VN sq; VHexQ _] =>
@@ -375,6 +385,8 @@ Definition builtin (globals : env) (f : string) (args : list gval) : res gval :=
     match args with
     | [VDAErr e; VSent sn _] => RRet (VBool (Proxy.is_sent e sn))
     | [VDAErr e; VCtxCanceled] => RRet (VBool (Proxy.e_ctx e))
+    | [VErrTag a; VErrTag b] => RRet (VBool (a =? b))
+    | [VErr _; VErrTag _] => RRet (VBool false)
     | _ => RFail "errors.Is"
     end
   else if f =? "strings.Contains" then
@@ -403,6 +415,9 @@ Definition is_nil (v : gval) : option bool :=
   | VOSData p => Some (match p with None => true | _ => false end)
   | VTxs l => Some (match l with None => true | _ => false end)
   | VDAErr _ => Some false
+  | VErrTag _ => Some false
+  | VRec _ => Some false
+  | VBatchQ _ => Some false
   | VIdsResult _ _ => Some false
   | _ => None
   end.
@@ -558,6 +573,13 @@ Definition bind_result (xs : list string) (v : gval) : option env :=
   | _, _ => None
   end.
 
+Definition start_env (fn : gfun) (recv : option gval) (args : list gval) : env :=
+  match f_recv fn, recv with
+  | Some r, Some v => ("$recv", VStr r) :: (r, v) :: bind_params (f_params fn) args
+  | _, _ => bind_params (f_params fn) args
+  end.
+
+
 (* ---- evaluation -------------------------------------------------------------------------------------------
    [fs] = the table of translated functions; [globals] = package-level names, "$now", "$cancelled".  One fuel
    for everything; exhaustion is a failure.  Expressions are pure; writes through a receiver / pointer argument
@@ -645,6 +667,14 @@ Fixpoint eval (fuel : nat) (fs : list (string * gfun)) (globals en : env) (e : g
               else RFail "Data literal"
           | _ => RFail "Data literal"
           end
+        else if ty =? "Batch" then
+          match fields with
+          | [(fname, fe)] =>
+              bind (ev fe) (fun v => match v with
+                                     | VTxsQ b => if fname =? "Transactions" then RRet (VBatchQ b) else RRet (VRec [(fname, v)])
+                                     | _ => RRet (VRec [(fname, v)]) end)
+          | _ => RFail "Batch literal"
+          end
         else
           (* any other struct literal: a record of its fields *)
           bind (seq_res (map (fun fe => bind (ev (snd fe)) (fun v => RRet (fst fe, v))) fields))
@@ -671,7 +701,32 @@ with exec (fuel : nat) (fs : list (string * gfun)) (globals en : env) (lg : list
       | SAssign xs (EMeth a m args) =>
           bind (ev a) (fun v => bind (seq_res (map ev args)) (fun vs =>
             match lookup fs (tyname v ++ "." ++ m) with
-            | Some _ => assign_pure xs (EMeth a m args)
+            | Some fn =>
+                (* a translated method: its effects join the log, and the state it leaves an object receiver in is
+                   written back to where the receiver came from (x or x.f) *)
+                bind (exec fuel' fs globals (start_env fn (Some v) vs) lg (f_body fn)) (fun out =>
+                  let '(vals, lg1) := out in
+                  let result := match vals with [r] => r | l => VTuple l end in
+                  let '(en1, lg2) :=
+                    match lg1 with
+                    | VEff w [nv] :: lg' =>
+                        if w =? "receiver" then
+                          (match a with
+                           | EVar x => (x, nv) :: en
+                           | ESel (EVar x) f =>
+                               match lookup en x with
+                               | Some (VObj ty fields) => (x, VObj ty ((f, nv) :: fields)) :: en
+                               | _ => en
+                               end
+                           | _ => en
+                           end, lg')
+                        else (en, lg1)
+                    | _ => (en, lg1)
+                    end in
+                  match bind_result xs result with
+                  | Some b => exec fuel' fs globals (b ++ en1) lg2 rest
+                  | None => RFail "assignment arity"
+                  end)
             | None =>
               match mut_meth v m vs with
               | Some (result, nrecv, ups) =>
@@ -767,12 +822,6 @@ with exec (fuel : nat) (fs : list (string * gfun)) (globals en : env) (lg : list
       | SUnknown w => RFail ("outside the fragment: " ++ w)
       end
     end
-  end.
-
-Definition start_env (fn : gfun) (recv : option gval) (args : list gval) : env :=
-  match f_recv fn, recv with
-  | Some r, Some v => ("$recv", VStr r) :: (r, v) :: bind_params (f_params fn) args
-  | _, _ => bind_params (f_params fn) args
   end.
 
 (* run a translated function by name: returned values and the effects, oldest first *)
